@@ -155,27 +155,30 @@ class Zooming(Algorithm):
                 self.partition.make_children(parent=parent, newlayer=False)
 
             children_list = parent.get_children()
+            arm_handed_over = False
             for child in children_list:
                 child_domain = child.get_domain()
                 point = self.best_arm.get_point()
 
-                child_updated = False
+                child_contains_arm = True
 
                 for dim in range(len(child_domain)):
                     if (
                         point[dim] < child_domain[dim][0]
                         or point[dim] > child_domain[dim][1]
                     ):
-                        self.make_active(
-                            child
-                        )  # if not containing the best arm, make the center point active
-                        child_updated = True
+                        child_contains_arm = False
                         break
 
-                if not child_updated:
+                if child_contains_arm and not arm_handed_over:
                     self.active_points[
                         self.best_arm
-                    ] = child  # else, update the active arm to refer to the child node
+                    ] = child  # the first child containing the arm takes it over
+                    arm_handed_over = True
+                else:
+                    self.make_active(
+                        child
+                    )  # every other child gets its center point as a new active arm
 
     def get_last_point(self):
         """
